@@ -11,11 +11,24 @@ Chk(what, cond) == IF cond THEN TRUE ELSE PrintT(<<"MISMATCH", what, "line", l>>
 FirstDiff(a, b) == IF \E i \in 1..Len(a) : i > Len(b) \/ a[i] # b[i]
                    THEN CHOOSE i \in 1..Len(a) : (i > Len(b) \/ a[i] # b[i]) /\ \A j \in 1..(i - 1) : j <= Len(b) /\ a[j] = b[j]
                    ELSE Len(a) + 1
+(* members of generated archives carry the bytes of their header (`rawhdr`): the record the rows are rendered from must be what Header!Parse
+   makes of those bytes - so a row is checked against the archive, not merely against what the library says the archive contains *)
+H == INSTANCE Header
+RecordIsParse(m) ==
+  IF "rawhdr" \notin DOMAIN m THEN TRUE
+  ELSE LET p == H!Parse(m.rawhdr) IN
+       /\ Chk("C19: the member's header is well-formed but the record differs (not returned as encoded)", p.ok)
+       /\ Chk("C19: record field differs from the encoded header",
+              /\ p.level = m.level /\ p.method = m.method /\ p.os = m.os /\ p.crc = m.crc /\ p.packed = m.packed /\ p.length = m.length
+              /\ p.time = m.time /\ p.path = m.path /\ p.filename = m.filename /\ p.target = m.target
+              /\ <<p.hasperms, p.hasids, p.hasos9>> = <<m.hasperms, m.hasids, m.hasos9>>
+              /\ (p.hasperms => p.perms = m.perms) /\ (p.hasids => (p.uid = m.uid /\ p.gid = m.gid)) /\ (p.hasos9 => p.os9 = m.os9))
 TInit == l = 1
 TList == /\ l <= Len(Trc) /\ Ev.e = "List" /\ l' = l + 1
          /\ LET want == Listing(Ev.members, [mode |-> Ev.mode, quiet |-> Ev.quiet, now |-> Ev.now, mtime |-> Ev.mtime,
                                              filters |-> Ev.filters, totalratio |-> Ev.totalratio])
-            IN /\ Chk("C18: byte outside printable ASCII / LF / CR / TAB on stdout", \A i \in 1..Len(Ev.out) : Printable(Ev.out[i]))
+            IN /\ \A i \in 1..Len(Ev.members) : RecordIsParse(Ev.members[i])
+               /\ Chk("C18: byte outside printable ASCII / LF / CR / TAB on stdout", \A i \in 1..Len(Ev.out) : Printable(Ev.out[i]))
                /\ IF want = Ev.out THEN TRUE
                   ELSE PrintT(<<"MISMATCH", "C19: listing differs at byte", FirstDiff(want, Ev.out), "line", l>>) /\ PrintT(<<"WANT", want>>) /\ FALSE
 \* any other command: only the C18 invariant on what was written (stdout and stderr)
